@@ -277,14 +277,15 @@ fn multi_block(lead: usize, lens: &[(usize, usize)], gaps: &[Gap], pattern: usiz
 
 /// 2-3 banks at output byte positions 0x00, 0x40, 0x80 (size 0x30 each, logical addresses elsewhere).
 /// order 0: bank by bank; 1: reverse; 2: first halves in order, second halves in reverse order.
-fn bank_prog(lens: &[usize], fill: bool, order: usize, labels: bool, ram: bool, pattern: usize) -> Prog {
+/// `addr_desc`: the logical addresses descend while the output positions ascend (address order != output order).
+fn bank_prog(lens: &[usize], fill: bool, order: usize, labels: bool, ram: bool, addr_desc: bool, pattern: usize) -> Prog {
     let mut s = String::new();
     if ram {
         // a bank without an output window: its labels and reservations occupy no output position at all
         s += "#bankdef ram\n{\n    #bits 8\n    #addr 0x8000\n    #size 0x10\n}\nr0:\n#res 2\nr1:\n";
     }
     for (i, _) in lens.iter().enumerate() {
-        s += &format!("#bankdef b{}\n{{\n    #bits 8\n    #addr 0x{:x}\n    #size 0x30\n    #outp 8 * 0x{:x}\n{}}}\n", i, 0x1000 * (i + 1), 0x40 * i, if fill { "    #fill\n" } else { "" });
+        s += &format!("#bankdef b{}\n{{\n    #bits 8\n    #addr 0x{:x}\n    #size 0x30\n    #outp 8 * 0x{:x}\n{}}}\n", i, if addr_desc { 0x1000 * (lens.len() - i) } else { 0x1000 * (i + 1) }, 0x40 * i, if fill { "    #fill\n" } else { "" });
     }
     let datas: Vec<Vec<bool>> = lens.iter().map(|n| block_bits(pattern, n * 8)).collect();
     let mut blocks = vec![];
@@ -324,7 +325,7 @@ fn bank_prog(lens: &[usize], fill: bool, order: usize, labels: bool, ram: bool, 
     if ram {
         s += "#bank ram\nr2:\n#res 1\n";
     }
-    Prog { text: s, shape: "banks", pattern, blocks, exact_len: false, coords: json!({"bank_bytes": lens, "fill": fill, "order": order, "labels": labels, "bank_without_output": ram, "pattern": pattern}) }
+    Prog { text: s, shape: "banks", pattern, blocks, exact_len: false, coords: json!({"bank_bytes": lens, "fill": fill, "order": order, "labels": labels, "bank_without_output": ram, "addresses_descending": addr_desc, "pattern": pattern}) }
 }
 
 fn empty_progs() -> Vec<Prog> {
@@ -815,8 +816,10 @@ fn bank_progs() -> Vec<Prog> {
                 for order in 0..3 {
                     for labels in [false, true] {
                         for ram in [false, true] {
-                            v.push(bank_prog(&lens, fill, order, labels, ram, idx % 3));
-                            idx += 1;
+                            for addr_desc in [false, true] {
+                                v.push(bank_prog(&lens, fill, order, labels, ram, addr_desc, idx % 3));
+                                idx += 1;
+                            }
                         }
                     }
                 }
